@@ -803,7 +803,7 @@ impl Prop for C01 {
         }
     }
     fn nontrivial_rule(&self) -> &'static str {
-        "scenario = seeded bulkhead config (max 1..4 or usize::MAX, max_wait none/0/5/10/25ms/Duration::MAX, builder calls in either order with redundant earlier setters or a preset), optionally a second service built from the same layer, 2-12 callers on clones made in advance, on the one never-cloned handle, or on clones made at arrival, futures held unpolled, In one run of six the wrapped service has a capacity (its readiness waits for a free slot, like tower's ConcurrencyLimit), with lattice arrival times/latencies, inner ok/error/panic/never, cancels, unpolled drops, clock jumps, panicking listeners; schedule = seeded choice among runnable tasks (uniform / PCT / newest / oldest). Non-trivial: some caller arrived while max_concurrent_calls calls were inside the inner service. Distinct = distinct event-log digest (sequence of all events with virtual times)."
+        "scenario = seeded bulkhead config (max 0..4 or usize::MAX, max_wait none/0/5/10/25ms/Duration::MAX or an hour / a year / three years with holders that never finish, optionally a wider bulkhead with the same explicit name alive next to it, optionally inner calls that send a nested request back through the bulkhead (finite max_wait only), builder calls in either order with redundant earlier setters or a preset), optionally a second service built from the same layer, 2-12 callers on clones made in advance, on the one never-cloned handle, or on clones made at arrival, futures held unpolled, In one run of six the wrapped service has a capacity (its readiness waits for a free slot, like tower's ConcurrencyLimit), with lattice arrival times/latencies, inner ok/error/panic/never, cancels, unpolled drops, clock jumps, panicking listeners; schedule = seeded choice among runnable tasks (uniform / PCT / newest / oldest). Non-trivial: some caller arrived while max_concurrent_calls calls were inside the inner service. Distinct = distinct event-log digest (sequence of all events with virtual times)."
     }
     fn real_components(&self) -> Vec<&'static str> {
         common_real()
